@@ -9,7 +9,7 @@
    k-th entry of [script] (Full | Short n | Eintr; Full for ever afterwards);
    [read_all d cr s] calls ReadLineOrEOF(d, cr) until it returns false and collects the
    records; the result [Ok ...] says that no error and no fuel exhaustion occurred. *)
-From PP Require Import Reader.FilePieceDefs Reader.FilePieceProofs.
+From PP Require Import Reader.FilePieceDefs Reader.FilePieceProofs Sys.C03Proofs.
 Local Open Scope nat_scope.
 
 (* read() path (pipes, and what every decompressor feeds): all byte strings not starting
@@ -63,6 +63,18 @@ Theorem C02_initial_window_admissible :
   page <= initial_cap page min_buffer /\ 1 <= initial_cap page min_buffer.
 Proof. exact initial_cap_ok. Qed.
 Print Assumptions C02_initial_window_admissible.
+
+(* tool level (observe_at: stdout of bin/remove_long_lines with a huge limit): FilePiece(0) with the
+   window its constructor computes for ANY page size and min_buffer, every record kept, written as
+   `out << l << '\n'` through a FileStream of any capacity: stdout is the records, each followed by LF,
+   whatever the read() and write() outcomes *)
+Theorem C02_identity_filter_tool :
+  forall page min_buffer bcap src rscript wscript,
+  1 <= page -> no_err rscript = true -> no_err wscript = true -> detect_magic src = false ->
+  line_filter_tool (fun _ => true) (initial_cap page min_buffer) bcap src rscript wscript
+  = Ok (unrecords 10%Z (records 10%Z true src)).
+Proof. exact C02_identity_filter_tool_proof. Qed.
+Print Assumptions C02_identity_filter_tool.
 
 (* non-vacuity: concrete data meeting the hypotheses, window of 2 bytes that has to double
    and to compact, short reads and an EINTR, CR before the delimiter, empty record,
